@@ -237,7 +237,7 @@ def body(ctx, case):
         cols.append(1 / jw if adm else jw)
     A = np.array(cols).T / np.abs(X)[:, None]
     norms = np.linalg.norm(np.vstack([A.real, A.imag]), axis=0)
-    bound = max((1e-3 if inv else 1e-5) if test.startswith("imaginary") else 1e-7, 1e4 * EPS * (cond**2 if inv else cond)) if test != "cnls" else 1e-2
+    bound = max((1e-3 if inv else 1e-5) if test.startswith("imaginary") else 1e-7, (1e5 if test.startswith("imaginary") else 1e4) * EPS * (cond**2 if inv else cond)) if test != "cnls" else 1e-2
     if bound <= 1e-3 and got.shape == want.shape:
         err = float(np.linalg.norm((got - want) * norms) / max(np.linalg.norm(want * norms), 1e-300))
         ctx.observe("parameter-error/bound", err / bound)
